@@ -13,6 +13,7 @@ import (
 	"encoding/binary"
 	"fmt"
 	"strings"
+	"time"
 
 	"github.com/tuneinsight/lattigo/v6/core/rlwe"
 	"github.com/tuneinsight/lattigo/v6/ring"
@@ -130,6 +131,53 @@ func c19BgvRejects(c *Ctx) {
 			d = c19BgvContextWorks(ok)
 		}
 		c.Probe("bgv_context_works", fmt.Sprintf("control logN=%d Q=%s P=%s t=65537", logN, Vec([]uint64{a, b}), Vec(P)), "C19-bgv-context", c19Sanitize(d))
+	}
+}
+
+// ---------------------------------------------------------------- accepted distributions are usable
+
+// c19DistUsable: whatever rlwe.NewParameters accepts as secret / error distribution must give parameters with which keys can
+// be generated and a ciphertext encrypted (no panic), and which survive their encoding.
+func c19DistUsable(c *Ctx) {
+	specs := []ring.DistributionParameters{ring.Ternary{H: 8}, ring.Ternary{P: 0.5}, ring.Ternary{P: 1}, ring.Ternary{P: 0.5, H: 3}, ring.Ternary{H: -4},
+		ring.Ternary{P: 1.5}, ring.Ternary{P: -0.5}, ring.Ternary{H: 64}, ring.Ternary{H: 65}, ring.DiscreteGaussian{Sigma: 3.2, Bound: 19.2},
+		ring.DiscreteGaussian{Sigma: 3.2, Bound: 0}, ring.DiscreteGaussian{Sigma: 1, Bound: 1}, ring.Uniform{}}
+	for _, d := range specs {
+		for _, role := range []string{"Xs", "Xe"} {
+			lit := rlwe.ParametersLiteral{LogN: 6, LogQ: []int{40, 30}, LogP: []int{41}}
+			if role == "Xs" {
+				lit.Xs = d
+			} else {
+				lit.Xe = d
+			}
+			detail := c19Run(5*time.Second, func() string { // milliseconds at LogN = 6; a sampler that never accepts shows up as `hang`
+				p, err := rlwe.NewParametersFromLiteral(lit)
+				if err != nil {
+					c.Count("dist:rejected")
+					return ""
+				}
+				c.Count("dist:accepted")
+				if r := Try(func() string {
+					kgen := rlwe.NewKeyGenerator(p)
+					sk, pk := kgen.GenKeyPairNew()
+					ct := rlwe.NewCiphertext(p, 1, p.MaxLevel())
+					if e := rlwe.NewEncryptor(p, sk).EncryptZero(ct); e != nil {
+						return "EncryptZero(sk): " + c19Sanitize(e.Error())
+					}
+					if e := rlwe.NewEncryptor(p, pk).EncryptZero(ct); e != nil {
+						return "EncryptZero(pk): " + c19Sanitize(e.Error())
+					}
+					return ""
+				}); r != "" {
+					return fmt.Sprintf("accepted %s=%+v, then key generation / encryption: %s", role, d, r)
+				}
+				if r := c19RlweRoundTrip(p); r != "" {
+					return fmt.Sprintf("accepted %s=%+v, then %s", role, d, r)
+				}
+				return ""
+			})
+			c.Probe("accepted_dist_usable", fmt.Sprintf("%s=%s", role, c19Sanitize(fmt.Sprintf("%+v", d))), "C19-accepted-dist-unusable", c19Sanitize(detail))
+		}
 	}
 }
 
